@@ -73,6 +73,8 @@ def _href_entry(href: str, text: str, search: bool, prefix: str = "") -> Entry:
         path = href
         if prefix and path.startswith(prefix):
             path = path[len(prefix):] or "/"
+            if not path.startswith("/"):
+                path = "/" + path
         sel = parsers.unquote_bytes(path.split("?", 1)[0])
         return Entry(None, name, True, selector=sel, raw=href, search=search)
     return Entry(None, name, False, url=href.encode("utf-8", "surrogateescape"), raw=href)
@@ -146,7 +148,9 @@ def from_html(body: bytes) -> typing.List[Entry]:
     return res
 
 
-def from_wml(body: bytes, waptop: str = "/wap") -> typing.List[Entry]:
+def from_wml(body: bytes, waptop: typing.Optional[str] = None) -> typing.List[Entry]:
+    if waptop is None:
+        waptop = reqs.WAPTOP
     text = body.decode("utf-8", "surrogateescape")
     i = text.find("<br/>\n")  # end of the title line
     j = text.rfind("</p>\n</card>")
